@@ -1,4 +1,5 @@
 import HailVerif.Proofs.Bunch
+import HailVerif.Proofs.Submit
 /-!
 # C19 — Client spec bunching preserves order and limits
 
@@ -78,5 +79,94 @@ example : createBunches id [] [1, 1, 1, 1, 1] 100 2 = some [[1, 1], [1, 1], [1]]
 -- a spec of exactly maxBytes is refused
 example : createBunches id [] [8] 8 10 = none := by decide
 example : createBunches id [] ([] : List Nat) 8 10 = some [] := by decide
+
+/-! ## The caller: the pending-spec buffers of `aioclient.Batch` across several `submit()` calls
+
+Subject: `HailVerif.Submit.step` / `run` (`Model/Submit.lean`), the model of `_create_job_group` / `_create_job` /
+`submit()` as far as they decide which specs go on the wire; tied to the code by the `submits` cases of
+`harness/props/c19.py` (a real `Batch` with a recording client, 1–3 submits). -/
+
+section Caller
+open HailVerif.Submit
+
+variable {β : Type} (sz : β → Nat)
+
+/-- One `submit()` that is not stopped by an assertion puts on the wire exactly the specs created since the last
+reset — all job groups in order, then all jobs in order, nothing else — in bunches that respect both limits, and
+leaves every buffer empty. -/
+theorem submit_posts_exactly_pending (s s' : St β) (maxBytes maxN : Nat) (w : Wire β)
+    (h : step sz s (.submit maxBytes maxN) = (s', some (.sent w))) :
+    w.bunches.flatten = (s.groupSpecs.map fun x => (Typ.group, x)) ++ (s.jobSpecs.map fun x => (Typ.job, x)) ∧
+    w.groups = s.groupSpecs ∧ w.jobs = s.jobSpecs ∧
+    (∀ b ∈ w.bunches, b ≠ [] ∧ bytes (fun p => sz p.2) b < maxBytes ∧ b.length ≤ maxN) ∧
+    s'.groupSpecs = [] ∧ s'.jobSpecs = [] ∧ s'.nGroups = 0 ∧ s'.nJobs = 0 ∧ s'.created = true := by
+  rcases step_submit sz s maxBytes maxN with ⟨_, h2⟩ | ⟨bs, r, hb, h2, hg, hj, hw⟩
+  · rw [h2] at h; cases h
+  · rw [h2] at h
+    simp only [Prod.mk.injEq, Option.some.injEq] at h
+    obtain ⟨rfl, rfl⟩ := h
+    obtain ⟨rfl, _⟩ := hw w rfl
+    refine ⟨bunchesOf_flatten sz s maxBytes maxN hb, hg, hj, ?_, rfl, rfl, rfl, rfl, rfl⟩
+    intro b hbm
+    exact ⟨no_empty_bunch _ _ _ _ _ hb b hbm, each_bunch_bytes_lt _ _ _ _ _ hb b hbm, each_bunch_len_le _ _ _ _ _ hb b hbm⟩
+
+/-- A `submit()` sends nothing only when there is nothing pending; an assertion leaves the buffers untouched. -/
+theorem submit_quiet_or_raised (s s' : St β) (maxBytes maxN : Nat) :
+    (step sz s (.submit maxBytes maxN) = (s', some .quiet) → s.groupSpecs = [] ∧ s.jobSpecs = [] ∧ s.created = true) ∧
+    (step sz s (.submit maxBytes maxN) = (s', some .raised) → s' = s) := by
+  constructor
+  · intro h
+    rcases step_submit sz s maxBytes maxN with ⟨_, h2⟩ | ⟨bs, r, _, h2, hg, hj, hw⟩
+    · rw [h2] at h; cases h
+    · rw [h2] at h
+      simp only [Prod.mk.injEq, Option.some.injEq] at h
+      obtain ⟨_, rfl⟩ := h
+      refine ⟨by simpa [Result.groups] using hg.symm, by simpa [Result.jobs] using hj.symm, ?_⟩
+      cases hc : s.created with
+      | true => rfl
+      | false =>
+        simp only [step] at h2
+        split at h2
+        · cases h2
+        · simp [hc] at h2
+  · intro h
+    unfold step at h
+    cases hb : bunchesOf sz s maxBytes maxN with
+    | none => simp only [hb, Prod.mk.injEq] at h; exact h.1.symm
+    | some bs =>
+      simp only [hb, Prod.mk.injEq, Option.some.injEq] at h
+      obtain ⟨_, h⟩ := h
+      split at h
+      · cases h
+      · split at h <;> cases h
+
+/-- **Every spec is posted exactly once**: for any script of creations and submits on a fresh `Batch`, the job groups
+posted by all its submits, followed by those still pending, are exactly the job groups created, in creation order —
+no spec is posted twice, none is lost, none is posted by a later submit than the first one after its creation; the
+same for jobs. -/
+theorem each_spec_posted_exactly_once (ops : List (Op β)) :
+    ((run sz St.init ops).2.flatMap Result.groups) ++ (run sz St.init ops).1.groupSpecs = createdGroups ops ∧
+    ((run sz St.init ops).2.flatMap Result.jobs) ++ (run sz St.init ops).1.jobSpecs = createdJobs ops := by
+  have h1 := run_groups sz ops St.init
+  have h2 := run_jobs sz ops St.init
+  simp only [St.init, List.nil_append] at h1 h2
+  exact ⟨h1, h2⟩
+
+/-- Every request announces exactly the numbers of job groups and jobs it posts (first submit: `_batch_spec`, later
+submits: `_update_spec`). -/
+theorem announced_counts_match (ops : List (Op β)) (w : Wire β) (h : Result.sent w ∈ (run sz St.init ops).2) :
+    w.announcedGroups = w.groups.length ∧ w.announcedJobs = w.jobs.length :=
+  run_announced sz ops St.init inv_init w h
+
+end Caller
+
+open HailVerif.Submit in
+-- two submits: the second one posts only what was created after the first (uids 4 and 5), the first one groups before jobs
+example : (run (fun _ : Nat => 10) St.init [.createJob 1, .createGroup 2, .createGroup 3, .submit 1000 10, .createJob 4, .createGroup 5,
+    .submit 1000 10]).2.map (fun r => (Submit.Result.groups r, Submit.Result.jobs r)) = [([2, 3], [1]), ([5], [4])] := by decide
+open HailVerif.Submit in
+-- an update with nothing pending sends nothing; a spec of 1000 bytes or more stops the submit and stays pending
+example : (run (fun n : Nat => n) St.init [.submit 1000 10, .submit 1000 10, .createJob 1000, .submit 1000 10, .submit 1001 10]).2.map
+    (fun r => (Submit.Result.groups r, Submit.Result.jobs r)) = [([], []), ([], []), ([], []), ([], [1000])] := by decide
 
 end HailVerif.C19
